@@ -275,6 +275,8 @@ def gen_c19(seed, index):
             "weights": {"fit": 1, "pfit": 3, "query": 2, "add": 1.5, "rem": 1, "warm": 1}, "end_query": False,
             "n_ops": (0, 6)}
     rng, g = _gen(seed, index, prof)
+    if g.lpk in G.LIN_KINDS and rng.random() < 0.35:
+        g.cfg["lp"]["scale"] = True         # per-arm StandardScaler objects are part of the state to be copied
     if rng.random() < 0.12:
         scn = {"cfg": g.cfg, "ops": []}      # copy before the first fit
     else:
@@ -1466,4 +1468,124 @@ def simulator_bookkeeping(scn):
                                 want += float(sim.arm_to_stats_train[a][stat])
                         if not T.same(float(view[a]["sum"]), want, 1e-9):
                             return "bandit %d, evaluation %r (%s), arm %r: sum %r, recomputation %r" % (i, key, stat, a, view[a]["sum"], want)
+    return None
+
+
+# ------------------------------------------------------------------ C18 containers and caller-owned objects
+
+def gen_c18(seed, index):
+    prof = {"name": "C18", "lp": ALL_LP, "np": [None, None] + G.NP_KINDS, "p_binz": 0.5,
+            "weights": {"fit": 1, "pfit": 3, "query": 3, "add": 1, "rem": 0.5, "warm": 0.7}, "n_ops": (3, 8),
+            "dims": [1, 1, 2, 3], "unknown_labels": False}
+    rng, g = _gen(seed, index, prof)
+    scn = g.build()
+    # later batches carry non-integral contexts (k/2) so that an integer first batch does not pin the dtype
+    first = True
+    for op in scn["ops"]:
+        if op["op"] in ("fit", "pfit") and op.get("c"):
+            if not first and rng.random() < 0.7:
+                op["c"] = [[x + rng.choice([0.0, 0.5]) for x in row] for row in op["c"]]
+            first = False
+    scn["variant"] = rng.choice(["ndarray", "ndarray_f", "ndarray_int", "pandas", "noncontig", "ndarray"])
+    return scn
+
+
+def _containers(op, variant, first_int_ok):
+    """the same data in another container type"""
+    import pandas as pd
+    d, r, c = op.get("d"), op.get("r"), op.get("c")
+    out = {}
+    if d is not None:
+        out["d"] = np.asarray(d) if variant != "pandas" else pd.Series(d)
+        rr = np.asarray(r, dtype=float)
+        if variant == "ndarray_int" and all(float(x).is_integer() for x in r):
+            rr = np.asarray(r, dtype=int)
+        out["r"] = rr if variant != "pandas" else pd.Series(r)
+    if c is not None:
+        m = np.asarray(c, dtype=float)
+        if variant == "ndarray_int" and np.all(m == np.floor(m)):
+            m = m.astype(int)
+        if variant == "ndarray_f":
+            m = np.asfortranarray(m)
+        elif variant == "noncontig":
+            wide = np.zeros((m.shape[0], m.shape[1] * 2))
+            wide[:, ::2] = m
+            m = wide[:, ::2]
+        elif variant == "pandas":
+            if m.shape[1] == 1 and d is not None and len(d) > 1:
+                m = pd.Series(m[:, 0])           # single feature column as a Series
+            elif m.shape[0] == 1 and d is not None:
+                m = pd.Series(m[0, :])           # single row as a Series
+            else:
+                m = pd.DataFrame(m)
+        out["c"] = m
+    return out
+
+
+def _snap(x):
+    import pandas as pd
+    if isinstance(x, np.ndarray):
+        return ("nd", x.dtype.str, x.shape, x.tobytes())
+    if isinstance(x, (pd.Series, pd.DataFrame)):
+        return ("pd", pickle.dumps(x))
+    return ("py", pickle.dumps(x))
+
+
+@twin("containers_and_caller_objects")
+@T.quiet
+def containers_and_caller_objects(scn):
+    from . import binz as B
+    cfg = scn["cfg"]
+    T.register_labels(scn)
+    arms_a = list(cfg["arms"])
+    arms_b = list(cfg["arms"])
+    lp = S.make_lp(cfg["lp"], cfg.get("binz"))
+    npo = S.make_np(cfg.get("np"))
+    policy_snap = _snap((npo.tree_parameters if hasattr(npo, "tree_parameters") else None,
+                         getattr(npo, "no_nhood_prob_of_arm", None)))
+    from mabwiser.mab import MAB
+    a = MAB(arms_a, lp, npo, seed=cfg.get("seed", 1))
+    b = MAB(arms_b, S.make_lp(cfg["lp"], cfg.get("binz")), S.make_np(cfg.get("np")), seed=cfg.get("seed", 1))
+    variant = scn.get("variant", "ndarray")
+    for i, op in enumerate(scn["ops"]):
+        ra = T.apply_op(a, op)
+        k = op["op"]
+        if k in ("fit", "pfit", "pexp", "pred"):
+            cont = _containers(op, variant, True)
+            before = {kk: _snap(v) for kk, v in cont.items()}
+            try:
+                if k in ("fit", "pfit"):
+                    (b.fit if k == "fit" else b.partial_fit)(cont["d"], cont["r"], cont.get("c"))
+                    rb = ("ok",)
+                else:
+                    res = (b.predict_expectations if k == "pexp" else b.predict)(cont.get("c"))
+                    rb = ("ok", T.canon(copy.deepcopy(res)))
+            except Exception as e:  # noqa: BLE001
+                rb = ("raised", type(e).__name__)
+            for kk, v in cont.items():
+                if _snap(v) != before[kk]:
+                    return "step %d (%s): the caller's %s container (%s) was modified by the call" % (i, k, {"d": "decisions", "r": "rewards", "c": "contexts"}[kk], variant)
+        elif k == "warm":
+            feats = {x: list(v) for x, v in op["feats"]}
+            before = _snap(feats)
+            try:
+                b.warm_start(feats, op["q"])
+                rb = ("ok",)
+            except Exception as e:  # noqa: BLE001
+                rb = ("raised", type(e).__name__)
+            if _snap(feats) != before:
+                return "step %d: warm_start modified the caller's arm-feature dictionary" % i
+        else:
+            rb = T.apply_op(b, op)
+        if not T.same(ra, rb, 0.0):
+            return "step %d (%s): lists give %r, %s containers give %r" % (i, k, ra, variant, rb)
+        if arms_a != list(cfg["arms"]) or arms_b != list(cfg["arms"]):
+            return "step %d (%s): the caller's arms list was modified: %r" % (i, k, arms_a)
+    if _snap((npo.tree_parameters if hasattr(npo, "tree_parameters") else None,
+              getattr(npo, "no_nhood_prob_of_arm", None))) != policy_snap:
+        return "a policy parameter object owned by the caller was modified"
+    # the bandit's arm list is independent of the list it was constructed from
+    arms_a.append("zz_caller_side")
+    if "zz_caller_side" in a.arms:
+        return "the bandit's arm list aliases the caller's list"
     return None
